@@ -125,6 +125,18 @@ func (w *world) startQuery() bool {
 				qr.Collection([]int{1, 2})
 			case "events":
 				qr.(interface{ AddEvent(interface{}, int) }).AddEvent(1, 0)
+			case "events2":
+				qr.(interface{ AddEvent(interface{}, int) }).AddEvent(1, 0)
+				qr.(interface{ RemoveEvent(int) }).RemoveEvent(0)
+			case "events-notfound":
+				qr.(interface{ AddEvent(interface{}, int) }).AddEvent(1, 0)
+				qr.NotFound()
+			case "events-collection":
+				qr.(interface{ AddEvent(interface{}, int) }).AddEvent(1, 0)
+				qr.Collection([]int{3})
+			case "events-panic":
+				qr.(interface{ AddEvent(interface{}, int) }).AddEvent(1, 0)
+				panic("boom after event")
 			case "error":
 				qr.Error(res.ErrNotFound)
 			case "notfound":
@@ -191,20 +203,33 @@ func (w *world) record(ids []string, failed, expired bool, src string) rec {
 	o.mu.Lock()
 	defer o.mu.Unlock()
 	replies := [][]interface{}{}
+	kinds := [][]interface{}{}
 	for _, id := range ids {
 		n := 0
+		kind := ""
 		for _, m := range w.conn.PubsOn("inbox." + id) {
 			if !strings.HasPrefix(string(m.Data), "timeout:") {
 				n++
+				kind = replyKind(m.Data)
 			}
 		}
 		replies = append(replies, []interface{}{id, n})
+		if n == 1 {
+			b := w.beh[id]
+			switch {
+			case strings.HasPrefix(id, "badjson"):
+				b = "badjson"
+			case strings.HasPrefix(id, "badnoq"):
+				b = "badnoq"
+			}
+			kinds = append(kinds, []interface{}{id, b, kind})
+		}
 	}
 	published := o.subject != ""
 	recv := append([]string{}, o.recv...)
 	bad := append([]bool{}, o.bad...)
 	cb := append([]string{}, o.cblog...)
-	return rec{"overlap": atomic.LoadInt32(&o.overlap) != 0, "judge": "all", "recv": recv, "badpayload": bad, "cblog": cb, "replies": replies, "failed": failed, "published": published,
+	return rec{"overlap": atomic.LoadInt32(&o.overlap) != 0, "judge": "all", "recv": recv, "badpayload": bad, "cblog": cb, "replies": replies, "kinds": kinds, "failed": failed, "published": published,
 		"expired": expired, "exited": listenerCount() == 0, "dbg": src}
 }
 
@@ -243,7 +268,61 @@ func replayBehaviour(seed int64, steps []sched.Step, src string) rec {
 	return w.record(ids, false, true, src)
 }
 
-var behaviours = []string{"", "collection", "events", "error", "notfound", "panic", "panic-err", "twice", "reply-panic"}
+var behaviours = []string{"", "collection", "events", "error", "notfound", "panic", "panic-err", "twice", "reply-panic", "events2", "events-notfound", "events-collection", "events-panic", "", "events"}
+
+// replyKind abstracts a query response: events:<n> | collection | model | error:<code> | malformed
+func replyKind(data []byte) string {
+	var p struct {
+		Result *struct {
+			Events     *[]json.RawMessage `json:"events"`
+			Collection json.RawMessage    `json:"collection"`
+			Model      json.RawMessage    `json:"model"`
+		} `json:"result"`
+		Error *struct {
+			Code string `json:"code"`
+		} `json:"error"`
+	}
+	if json.Unmarshal(data, &p) != nil {
+		return "malformed"
+	}
+	switch {
+	case p.Error != nil && p.Result == nil:
+		return "error:" + p.Error.Code
+	case p.Result != nil && p.Result.Events != nil:
+		return fmt.Sprintf("events:%d", len(*p.Result.Events))
+	case p.Result != nil && p.Result.Collection != nil:
+		return "collection"
+	case p.Result != nil && p.Result.Model != nil:
+		return "model"
+	}
+	return "malformed"
+}
+
+// contentHistory: one long-lived query event answers a shuffled sequence containing every callback
+// behaviour, so that each kind of response follows each other kind on the same query event.
+func contentHistory(seed int64) rec {
+	rng := rand.New(rand.NewSource(seed))
+	w := newWorld(seed, false, 60*time.Millisecond, false)
+	defer w.close()
+	if !w.startQuery() {
+		return nil
+	}
+	seq := append([]string{}, behaviours...)
+	seq = append(seq, behaviours...)
+	rng.Shuffle(len(seq), func(i, j int) { seq[i], seq[j] = seq[j], seq[i] })
+	var ids []string
+	for i, b := range seq {
+		id := fmt.Sprintf("c%d", i+1)
+		if rng.Intn(12) == 0 {
+			id = fmt.Sprintf("badnoq%d", i+1)
+		}
+		w.beh[id] = b
+		ids = append(ids, id)
+		w.sendReq(id)
+	}
+	time.Sleep(60*time.Millisecond + 40*time.Millisecond)
+	return w.record(ids, false, true, fmt.Sprintf("content history seed %d: %v", seed, seq))
+}
 
 // randomHistory: requests at random times around the expiry, random callback behaviours.
 func randomHistory(seed int64, failSub bool) rec {
@@ -409,6 +488,11 @@ func Run(c *core.Ctx) {
 			recs = append(recs, rr)
 		}
 	}
+	for i := 0; i < c.Pick(4, 40); i++ {
+		if rr := contentHistory(c.Seed*31 + int64(i)); rr != nil {
+			recs = append(recs, rr)
+		}
+	}
 	for i := 0; i < c.Pick(3, 20); i++ {
 		if rr := groupHistory(c.Seed + int64(i)); rr != nil {
 			recs = append(recs, rr)
@@ -425,7 +509,7 @@ func Run(c *core.Ctx) {
 	var bad []int
 	core.CheckRecords(c, "TraceQueryObs", "TraceQueryObs.cfg", recs, nil, func(i int, r interface{}, inv string) { bad = append(bad, i) })
 	if len(bad) > 0 {
-		clauses := []string{"serialized", "one-reply", "callback-per-request", "nil-once", "nil-at-most-once", "nil-last", "failed-sub", "released"}
+		clauses := []string{"serialized", "one-reply", "content", "callback-per-request", "nil-once", "nil-at-most-once", "nil-last", "failed-sub", "released"}
 		var recs2 []interface{}
 		var which []string
 		for _, i := range bad {
